@@ -161,6 +161,41 @@ def rule_u1(chk: Check):
         raise AnalysisError("U1 self-probe failed")
 
 
+READ_ONLY_METHODS = {"get", "items", "keys", "values", "index", "count", "copy", "__contains__", "__getitem__"}
+
+
+def _class_container_escapes(name: str) -> list[str]:
+    """Uses of `<anything>.name` (or the bare name in a class body) that are not plain reads of a constant table: a look-up method,
+    a subscript load, membership, iteration, len().  Anything else — a mutator call, a store, passing or returning the object — may
+    change or leak the container every instance shares."""
+    out = []
+    for rel in MODULES:
+        mod = parse_py(rel)
+        parents = {c: p for p in ast.walk(mod) for c in ast.iter_child_nodes(p)}
+        for n in ast.walk(mod):
+            if not ((isinstance(n, ast.Attribute) and n.attr == name) or (isinstance(n, ast.Name) and n.id == name and isinstance(n.ctx, ast.Load))):
+                continue
+            p = parents.get(n)
+            if isinstance(n, ast.Attribute) and not isinstance(n.ctx, ast.Load):
+                out.append(f"{rel}:{n.lineno} (store)")
+                continue
+            ok = False
+            if isinstance(p, ast.Attribute) and p.value is n and p.attr in READ_ONLY_METHODS and isinstance(parents.get(p), ast.Call) \
+                    and parents[p].func is p:
+                ok = True
+            elif isinstance(p, ast.Subscript) and p.value is n and isinstance(p.ctx, ast.Load):
+                ok = True
+            elif isinstance(p, ast.Compare) and n in p.comparators and all(isinstance(o, (ast.In, ast.NotIn)) for o in p.ops):
+                ok = True
+            elif isinstance(p, (ast.For, ast.comprehension)) and p.iter is n:
+                ok = True
+            elif isinstance(p, ast.Call) and isinstance(p.func, ast.Name) and p.func.id in ("len", "sorted", "tuple", "frozenset", "list", "set", "dict") and n in p.args:
+                ok = True
+            if not ok:
+                out.append(f"{rel}:{n.lineno} (`{norm_stmt(p)[:50]}`)")
+    return out
+
+
 def rule_u2(chk: Check):
     for rel in MODULES:
         mod = parse_py(rel)
@@ -176,8 +211,10 @@ def rule_u2(chk: Check):
                 chk.count("U2-class-state")
                 mutable = isinstance(val, (ast.List, ast.Dict, ast.Set, ast.ListComp, ast.DictComp, ast.SetComp)) or (
                     isinstance(val, ast.Call) and norm_stmt(val.func) in ("list", "dict", "set", "defaultdict", "deque"))
-                chk.require(not mutable, "U2-class-state", f"{rel}:{cls.name}.{name}", f"{rel}:{st.lineno}",
-                            f"class attribute `{cls.name}.{name}` is a mutable container shared by all instances")
+                escapes = _class_container_escapes(name) if mutable else []
+                chk.require(not (mutable and escapes), "U2-class-state", f"{rel}:{cls.name}.{name}", f"{rel}:{st.lineno}",
+                            f"class attribute `{cls.name}.{name}` is a mutable container shared by all instances, and it is written or "
+                            f"handed out at {escapes[:3]}")
     # ... and no method writes a class attribute (cls.X = / ClassName.X = / type(self).X =): that is process-wide state
     for rel in MODULES:
         mod = parse_py(rel)
